@@ -85,6 +85,10 @@ Section Rel.
   Lemma prim_tokens_rel al1 al2 p : R al1 al2 -> res_rel R (prim_tokens al1 p) (prim_tokens al2 p).
   Proof. intros H. destruct p; cbn [prim_tokens res_rel]; rtok; reflexivity. Qed.
 
+  Lemma tpath_rel_tuple_or_array t1 t2 :
+    tpath_rel R t1 t2 -> WellFormed.tuple_or_array t1 = WellFormed.tuple_or_array t2.
+  Proof. destruct 1; reflexivity. Qed.
+
   Theorem tp_tokens_rel al1 al2 : R al1 al2 -> forall t1 t2,
     tpath_rel R t1 t2 -> res_rel R (tp_tokens al1 t1) (tp_tokens al2 t2).
   Proof.
@@ -105,7 +109,9 @@ Section Rel.
       + intros ps ps' Hps. cbn [res_rel]. pose proof (R_flat_comma _ _ Hps). rtok.
     - cbn [tp_tokens]. apply prim_tokens_rel; exact Hal.
     - rewrite !tp_tokens_TCompact. eapply bind_rel; [apply IH; eassumption|].
-      intros a a' Ha. destruct f; cbn [res_rel]; rtok.
+      intros a a' Ha.
+      match goal with Hr : tpath_rel R i _ |- _ => rewrite <- (tpath_rel_tuple_or_array _ _ Hr) end.
+      destruct f; [destruct (WellFormed.tuple_or_array i)|]; cbn [andb res_rel]; rtok; reflexivity.
     - rewrite !tp_tokens_TBitVec. eapply bind_rel; [apply IHo; eassumption|].
       intros a a' Ha. eapply bind_rel; [apply IHs; eassumption|].
       intros c c' Hc. cbn [res_rel]. rtok.
